@@ -57,7 +57,7 @@ def inj_job(job):
     base = float(r.choice([0, 0, 3, 34]))
     out = {"job": list(job), "names": names, "preds_raw": preds.tolist(), "pred_adj": np.asarray(m.aggregate_pred_margin).flatten().tolist(),
            "d1": np.asarray(m.divided_error_B_1).tolist(), "d2": np.asarray(m.divided_error_B_2).tolist(), "lhs": lhs, "rhs": rhs, "stops": stops,
-           "alpha": alpha, "weights": weights, "base": base, "B": B, "corr": corr}
+           "alpha": alpha, "weights": weights, "base": base, "B": B, "corr": corr, "q": [float(x) for x in m._get_quantiles(alpha)]}
     try:
         res = m.get_national_summary_estimates(dict(weights), base, alpha)
         out["triple"] = [float(x) for x in res["margin"]]
@@ -102,7 +102,47 @@ def statement(o):
         fails.append({"what": f"prediction {p} but base + weights of contests with positive margin = {want}", "kind": "pred-def"})
     if any(w != "rejected" for w in o["wrong"]):
         fails.append({"what": f"weight dictionary of the wrong size: {o['wrong']}", "kind": "wrong-size"})
-    # called contests contribute no uncertainty: if every contest is called (and none stopped) the interval has zero width
+    # independent contests (no correlation): the bounds come from ONE bootstrap draw each, the draw whose national total sits at the
+    # lower / upper rank; whichever of the tied draws is taken, a contest can only be lost if it is predicted won and lost in that draw
+    if not o["corr"]:
+        import math as _m
+
+        names = o["names"]
+        w = [o["weights"][n] for n in sorted(names)]          # the model orders the weights by contest name
+        order = sorted(range(len(names)), key=lambda i: names[i])
+        d1 = [o["d1"][i] for i in order]
+        d2 = [o["d2"][i] for i in order]
+        predm = [o["pred_adj"][i] for i in order]
+        called = [(names[i] in o["lhs"] or names[i] in o["rhs"]) for i in order]
+        stop = [names[i] in o["stops"] for i in order]
+        B2 = 2 * o["B"]
+        draws = [[d1[i][j] > 0 for i in range(len(w))] for j in range(o["B"])] + [[d2[i][j] > 0 for i in range(len(w))] for j in range(o["B"])]
+        totals = [sum(wi for wi, s_ in zip(w, dr) if s_) for dr in draws]
+        srt = sorted(totals)
+        jl, ju = int(_m.floor(o["q"][0] * B2)), int(_m.ceil(o["q"][1] * B2))
+        if 0 <= jl < B2 and 0 <= ju < B2:
+            ps = [m_ > 0 for m_ in predm]
+            predv = sum(wi for wi, s_ in zip(w, ps) if s_)
+
+            def bound(dr, lower):
+                tot = 0.0
+                for wi, p_, s_, c_, st_ in zip(w, ps, dr, called, stop):
+                    x = (p_ and not s_) if lower else (s_ and not p_)
+                    if c_:
+                        x = False
+                    if st_ and (p_ if lower else not p_):
+                        x = True
+                    tot += wi if x else 0.0
+                return o["base"] + (predv - tot if lower else predv + tot)
+
+            lows = {round(bound(dr, True), 2) for dr, t in zip(draws, totals) if t == srt[jl]}
+            ups = {round(bound(dr, False), 2) for dr, t in zip(draws, totals) if t == srt[ju]}
+            if not any(abs(lo - x) <= 0.0051 for x in lows):
+                fails.append({"what": f"independent contests: lower {lo} is not prediction minus the weights of the contests predicted won and lost in the draw at the lower rank "
+                                      f"(admissible: {sorted(lows)})", "kind": "draw-bound"})
+            if not any(abs(hi - x) <= 0.0051 for x in ups):
+                fails.append({"what": f"independent contests: upper {hi} is not prediction plus the weights of the contests predicted lost and won in the draw at the upper rank "
+                                      f"(admissible: {sorted(ups)})", "kind": "draw-bound"})
     return fails
 
 
@@ -183,6 +223,15 @@ def api_job(job):
         weights2 = {s: float(2 * i + 1) for i, s in enumerate(sorted(case["states"]))}
         df2 = r["client"].get_national_summary_votes_estimates(weights2, 40, [0.9])
         out["summary2"] = df2.to_dict("records")
+        # weight dictionaries of the wrong size are rejected by the client's entry point too (one entry too many / too few)
+        wrong = []
+        for wd in (dict(weights, ZZ=55.0), {k_: v_ for k_, v_ in list(weights.items())[1:]}):
+            try:
+                r["client"].get_national_summary_votes_estimates(wd, 5, [0.9])
+                wrong.append("accepted")
+            except Exception as e2:  # noqa: BLE001
+                wrong.append("rejected" if type(e2).__name__ == "BootstrapElectionModelException" else type(e2).__name__)
+        out["wrong_client"] = wrong
         st = r["tables"]["state_data"]
         out["expected2"] = 40 + sum(weights2[row["postal_code"]] for row in st.to_dict("records") if row["pred_margin"] > 0)
         out["expected1"] = 5 + sum(weights[row["postal_code"]] for row in st.to_dict("records") if row["pred_margin"] > 0)
@@ -291,6 +340,8 @@ def run(chk):
         if "sum_exc" in o:
             chk.violation(f"national summary after get_estimates(aggregates={o['job'][1]}) fails: {o['sum_exc']}", replay, {"kind": "history-fails"})
             continue
+        if any(w != "rejected" for w in o.get("wrong_client", [])):
+            chk.violation(f"weight dictionaries with one entry too many / too few given to the client: {o['wrong_client']} (both must be rejected)", replay, {"kind": "wrong-size"})
         if ref is None:
             ref = o["summary"]
         elif o["summary"] != ref:
